@@ -28,12 +28,14 @@ type retEdge struct {
 	val   ssa.Value
 	av    ranges.AV
 	an    *ranges.An
-	raise bool // the path performed the stall raise (offset increment)
+	raise bool          // the path performed the stall raise (offset increment)
+	chain []*ssa.Return // tail-call returns of the outer functions through which this return is reached
 }
 
 type cycleInfo struct {
 	ufs        *ssa.Function
-	target     *ssa.Function // the target computation
+	target     *ssa.Function   // the target computation
+	body       []*ssa.Function // target plus the functions it tail-calls for its result (return helper(...))
 	targetCall *ssa.Call
 	writeCall  *ssa.Call
 	writer     *writerInfo
@@ -142,37 +144,67 @@ func (c *Ctx) analyseRegulation() *regulation {
 			continue
 		}
 		T := ci.target
-		ei := errResultIndex(T)
-		for _, ret := range ir.Returns(T) {
-			vias := []*ssa.BasicBlock{nil}
-			if phi, ok := ir.Resolve(ret.Results[0]).(*ssa.Phi); ok && phi.Block() == ret.Block() {
-				vias = ret.Block().Preds
-			}
-			for _, via := range vias {
-				facts := ranges.FactsAt(ret.Block(), via)
-				if ei >= 0 && !mayBeNilError(ret.Results[ei], facts) {
-					continue
+		ci.body = []*ssa.Function{T}
+		newAn := func(fn *ssa.Function) *ranges.An {
+			an := ranges.New(fn)
+			an.Name = func(v ssa.Value) string { return r.symName(v) }
+			an.Inline = func(f *ssa.Function) bool { return c.P.IsRepoFunc(f) && len(f.Blocks) <= 12 }
+			return an
+		}
+		var enumRets func(fn *ssa.Function, mk func() *ranges.An, chain []*ssa.Return, depth int)
+		enumRets = func(fn *ssa.Function, mk func() *ranges.An, chain []*ssa.Return, depth int) {
+			ei := errResultIndex(fn)
+			for _, ret := range ir.Returns(fn) {
+				vias := []*ssa.BasicBlock{nil}
+				if phi, ok := ir.Resolve(ret.Results[0]).(*ssa.Phi); ok && phi.Block() == ret.Block() {
+					vias = ret.Block().Preds
 				}
-				an := ranges.New(T)
-				an.Name = func(v ssa.Value) string { return r.symName(v) }
-				an.Inline = func(f *ssa.Function) bool { return c.P.IsRepoFunc(f) && len(f.Blocks) <= 12 }
-				val := ir.ResultVia(ret, 0, via)
-				re := &retEdge{ret: ret, via: via, val: val, an: an}
-				re.av = an.Eval(val, facts)
-				ci.rets = append(ci.rets, re)
-				for _, h := range an.Hyps {
-					dup := false
-					for _, x := range ci.hyps {
-						if x == h {
-							dup = true
+				for _, via := range vias {
+					facts := ranges.FactsAt(ret.Block(), via)
+					if ei >= 0 && !mayBeNilError(ret.Results[ei], facts) {
+						continue
+					}
+					an := mk()
+					val := ir.ResultVia(ret, 0, via)
+					// `return helper(...)`: the result is computed by a continuation in the same package
+					if tc := tailCallOf(ret, ei); tc != nil && depth < 2 {
+						if cal := ir.Callee(tc).Static; cal != nil && load_FuncPkgPath(cal) == PkgCtrl && len(cal.Blocks) > 0 && errResultIndex(cal) == ei {
+							if probe := an.Enter(tc, facts); probe != nil {
+								seen := false
+								for _, b := range ci.body {
+									if b == cal {
+										seen = true
+									}
+								}
+								if !seen {
+									ci.body = append(ci.body, cal)
+								}
+								tcc, fcts, outer := tc, facts, mk
+								enumRets(cal, func() *ranges.An { return outer().Enter(tcc, fcts) }, append(append([]*ssa.Return{}, chain...), ret), depth+1)
+								continue
+							}
 						}
 					}
-					if !dup {
-						ci.hyps = append(ci.hyps, h)
+					re := &retEdge{ret: ret, via: via, val: val, an: an, chain: chain}
+					re.av = an.Eval(val, facts)
+					ci.rets = append(ci.rets, re)
+					for a := an; a != nil; a = a.Parent() {
+						for _, h := range a.Hyps {
+							dup := false
+							for _, x := range ci.hyps {
+								if x == h {
+									dup = true
+								}
+							}
+							if !dup {
+								ci.hyps = append(ci.hyps, h)
+							}
+						}
 					}
 				}
 			}
 		}
+		enumRets(T, func() *ranges.An { return newAn(T) }, nil, 0)
 		// identify the symbols of the envelope from the bounds of the first return
 		for _, re := range ci.rets {
 			for _, h := range re.av.Hi {
@@ -195,22 +227,30 @@ func (c *Ctx) analyseRegulation() *regulation {
 		}
 		// instructions of T that increment an offset field (directly or through a callee)
 		for name := range ci.offFields {
-			Instrs(T, func(ins ssa.Instruction) {
-				if st, ok := ins.(*ssa.Store); ok {
-					if fa, ok := st.Addr.(*ssa.FieldAddr); ok {
-						if _, n, _ := ir.FieldName(fa); n == name {
-							ci.incrCalls = append(ci.incrCalls, ins)
+			for _, bf := range ci.body {
+				Instrs(bf, func(ins ssa.Instruction) {
+					if st, ok := ins.(*ssa.Store); ok {
+						if fa, ok := st.Addr.(*ssa.FieldAddr); ok {
+							if _, n, _ := ir.FieldName(fa); n == name {
+								ci.incrCalls = append(ci.incrCalls, ins)
+							}
 						}
 					}
-				}
-				if cc, ok := ins.(ssa.CallInstruction); ok {
-					for _, cal := range c.Callees(cc) {
-						if c.mayStoreField(cal, recvTypeName(T), name) {
-							ci.incrCalls = append(ci.incrCalls, ins)
+					if cc, ok := ins.(ssa.CallInstruction); ok {
+						for _, cal := range c.Callees(cc) {
+							inBody := false
+							for _, b := range ci.body {
+								if b == cal {
+									inBody = true
+								}
+							}
+							if !inBody && c.mayStoreField(cal, recvTypeName(T), name) {
+								ci.incrCalls = append(ci.incrCalls, ins)
+							}
 						}
 					}
-				}
-			})
+				})
+			}
 		}
 		for _, re := range ci.rets {
 			for _, inc := range ci.incrCalls {
@@ -219,9 +259,15 @@ func (c *Ctx) analyseRegulation() *regulation {
 					if ins == ssa.Instruction(re.ret) && (re.via == nil || via == re.via || via == nil && inc.Block() == re.via) {
 						reach = true
 					}
+					// the increment happened before the result was handed to a continuation
+					for _, cr := range re.chain {
+						if ins == ssa.Instruction(cr) {
+							reach = true
+						}
+					}
 				})
 				// the increment's own block may be the predecessor
-				if inc.Block() == re.via {
+				if inc.Block() == re.via && inc.Parent() == re.ret.Parent() {
 					reach = true
 				}
 				if reach {
@@ -657,4 +703,25 @@ func (r *regulation) ruleNoForcedMin(rule string) {
 	if n == 0 {
 		c.R.Ok(rule, "none", "UpdateFanSpeed call tree", "-", "no SetMinPwm call on the regulation path: the fan's minimum is only changed by attaching measured data (force=false)")
 	}
+}
+
+// tailCallOf: the return hands on the results of one call (return f(...)): result #0 and the error
+// result are extracts of the same call.
+func tailCallOf(ret *ssa.Return, ei int) *ssa.Call {
+	if ei < 1 || len(ret.Results) != ei+1 {
+		return nil
+	}
+	var call *ssa.Call
+	for i, rv := range ret.Results {
+		ex, ok := rv.(*ssa.Extract)
+		if !ok || ex.Index != i {
+			return nil
+		}
+		c, ok := ex.Tuple.(*ssa.Call)
+		if !ok || (call != nil && c != call) {
+			return nil
+		}
+		call = c
+	}
+	return call
 }
